@@ -218,6 +218,11 @@ class LoopMixin:
         self.assume_all_normal(bv, domc, normal)
         self.trace.append(("loop", bv, None, [(q.cond, q.trace) for q in normal]))
         ys = [p for p in normal if p.value[0] != "skip"]
+        if not normal and not exits:
+            # no feasible iteration at all: the domain is empty on this path
+            return PyList([]) if kind in ("list", "gen") else (KSetV() if kind == "set" else PyDict())
+        if not ys and kind == "dict":
+            return PyDict()
         if kind in ("list", "gen"):
             if len(ys) != len(normal):
                 raise Unsupported("filtered list comprehension over symbolic sequence")
